@@ -34,6 +34,10 @@ int main(int argc, char **argv) {
                    (int) dialect::Compass::isIncreasingCard(k), (int) dialect::Compass::isDecreasingCard(k));
         } else printf(" -1 -1 -1 -1\n");
     }
+    for (int d = 0; d < 8; ++d) {
+        Avoid::Point v = dialect::Compass::vectorSigns((dialect::CompassDir) d);
+        printf("VSIGN %d %.17g %.17g\n", d, v.x, v.y);
+    }
     for (int a = 0; a < 4; ++a) for (int b = 0; b < 4; ++b)
         printf("PAIR %d %d %d %d\n", a, b, (int) dialect::Compass::sameDimension((dialect::CardinalDir) a, (dialect::CardinalDir) b),
                (int) dialect::Compass::arePerpendicular((dialect::CardinalDir) a, (dialect::CardinalDir) b));
